@@ -269,12 +269,12 @@ func (m *monitor) hasHolderOther(e, g int) bool {
 
 // blockedSet computes which outstanding acquire operations may legitimately be blocked given the
 // registered holders and the other outstanding operations:
-//   - an RLock may be blocked iff one of its entities has a registered writer, or a Lock of another
-//     goroutine is outstanding on it: the mutex is "starving" by design - when a writer unlocks while
-//     writers are pending only a writer is signalled, and readers that were already asleep stay asleep
-//     until a writer unlocks with no writer pending (documented: "If there are waiting writers these
-//     will be served first before ANY reader can read again"); who wins is not asserted. A blocked
-//     multi-entity RLock may invisibly hold read locks on the entities before the one it is stuck at;
+//   - an RLock may be blocked iff one of its entities has a registered writer, or a Lock of another goroutine is
+//     outstanding on it that may already have been granted (no reader is registered on the entity). While only readers
+//     hold an entity a blocked reader must be granted, pending writers or not: RLock does not wait for pending writers
+//     ("a blocked Lock call does not exclude new readers"), so a reader that stays asleep behind a mere reader is a lost
+//     wake-up (and, with goroutines that hold other DAG entities meanwhile, a deadlock). A blocked multi-entity RLock
+//     may invisibly hold read locks on the entities before the one it is stuck at;
 //   - a Lock may be blocked iff its entity has a registered holder or a legitimately blocked
 //     multi-entity RLock may hold it.
 //
@@ -285,7 +285,10 @@ func blockedSet(mon *monitor, outstanding map[int]op) map[int]bool {
 	mayHold := map[int]bool{}
 	pendingWriter := func(e, g int) bool {
 		for g2, o := range outstanding {
-			if g2 != g && o.Kind == opLock && o.Ents[0] == e {
+			// an outstanding Lock may already have been granted inside the mutex (its return event is on the way) and then
+			// blocks readers - unless a reader is registered on the entity: then that Lock certainly has not been granted
+			// (exclusion), only readers hold the entity, and a blocked reader has to be woken up and granted
+			if g2 != g && o.Kind == opLock && o.Ents[0] == e && !mon.hasReaderOther(e, g2) {
 				return true
 			}
 		}
